@@ -48,6 +48,44 @@ CLAIMED = {
              "successors start after the completing invocation, each instance completes once; task_startup_iter/chunk are swept so startup "
              "enumeration is suspended and resumed at every position.",
         design_ref="5/C16"),
+    "C24": dict(
+        engine="hypothesis+subprocess(E9)",
+        technique="grammar-based generation of valid JDF (engine E5) plus token-level mutation, limit-exceeding construction and byte noise; accept/reject oracle with compile check and determinism check",
+        text="Valid, mutated, over-limit and noisy JDF texts are compiled twice with the tree's parsec-ptgpp (gcc build, and the ASan/UBSan build "
+             "on a quarter of the cases). Oracle: exit 0 implies byte-identical outputs and C that passes cc -fsyntax-only; exit != 0 implies "
+             "normal termination with a diagnostic; valid programs must be accepted, programs over MAX_PARAM/DEP_IN/DEP_OUT/LOCAL_COUNT "
+             "must be rejected; signals and memory errors are violations.",
+        design_ref="5/C24"),
+    "C33": dict(
+        engine="dsched+rc",
+        technique="schedule-owning concurrency testing (dsched) of the ticket rwlock with an occupancy oracle; exhaustive schedule DFS for tiny programs; deterministic bounded-progress check; stress",
+        text="Threads run generated lock/unlock cycles with harness yield points inside the critical sections; the interleaving is generated. "
+             "Oracle: a writer is never inside with another writer or a reader (harness occupancy counters), readers do overlap (counted), and "
+             "under the fair tail nobody deadlocks or exceeds the step bound. 2 threads x 1 cycle under all schedules, 2x2 / 3x1 cycles with "
+             "bounded preemptions enumerated; larger cases sampled; 2..16-thread stress.",
+        design_ref="5/C33"),
+    "C34": dict(
+        engine="dsched+rc",
+        technique="schedule-owning concurrency testing of PARSEC_OBJ retain/release against a sequential refcount model; exhaustive DFS for tiny programs; stress",
+        text="Class hierarchies of depth 1..4 with logging constructors/destructors; threads retain/release references they hold with hand-offs. "
+             "Oracle: constructors base-to-derived once, destructors derived-to-base exactly once and exactly at the step where the model count "
+             "reaches zero. All schedules of 2 threads x 2 ops and 3 threads x 1 op plus the lazy class-initialisation race are enumerated.",
+        design_ref="5/C34"),
+    "C29": dict(
+        engine="dsched+rc",
+        technique="schedule-owning concurrency testing of base/countable/datacopy futures with once-only and single-value oracles; exhaustive DFS for tiny programs; stress",
+        text="Base futures (racing setters, getters), countable futures (count 1..6) and datacopy futures (same/different shapes, sync and deferred "
+             "fulfilment, nested requests) are driven from 2..4 threads under generated schedules. Oracle: one set wins and every getter sees "
+             "it; ready exactly after `count` sets; fulfilment at most once per shape with one pointer per shape; every completion/cleanup "
+             "callback exactly once.",
+        design_ref="5/C29"),
+    "C07": dict(
+        engine="dsched+rc",
+        technique="direct drive of parsec_update_deps_with_mask/_with_counter on harness-built task classes under generated schedules; exhaustive for N<=3 releases; stress",
+        text="A harness task class (flags and goal computed as jdf2c does; flows from tasks, from collections, control gathers, write-only) and "
+             "one dependency word; N releases split over threads in a generated order and interleaving. Oracle: exactly one call reports "
+             "ready iff all N releases were issued, and it is the last to commit; fewer than N never report ready. Both tracking modes.",
+        design_ref="5/C07"),
     "C23": dict(
         engine="ptg(E5)+hypothesis",
         technique="generated parameter spaces; key distinctness and key_print round-trip oracle on the generated make_key/key_print",
